@@ -1,6 +1,7 @@
 //! mc — bounded exhaustive exploration of rspack-sources against /verif/properties.jsonl
 mod c06;
 mod c08;
+mod c09;
 mod engine;
 mod findings;
 mod model;
@@ -76,6 +77,7 @@ fn meta(prop: &str) -> Meta {
     "C13" => Meta { level: "model_checking", rule: "one case per (law, base term, variant term); states = pool elements + ordered triples; non-trivial = the base has at least one mapped position", assumptions: tree_assume, workers: 16 },
     "C06" => Meta { level: "model_checking", rule: "one case per distinct Concat/Replace term; non-trivial = >= 2 children with a mapped position (Concat) / >= 2 inner segments with a mapped survivor (Replace)", assumptions: tree_assume, workers: 16 },
     "C08" => Meta { level: "model_checking", rule: "one case per (text, map) pair; non-trivial = map has >= 2 segments and attributes >= 1 character", assumptions: tree_assume, workers: 16 },
+    "C09" => Meta { level: "model_checking", rule: "one case per (generated text, outer map, original text, inner map, options); non-trivial = at least one position is attributed through the inner map", assumptions: tree_assume, workers: 16 },
     "C11" => Meta { level: "model_checking", rule: "one case per distinct term; non-trivial = some map() has >= 2 segments", assumptions: tree_assume, workers: 16 },
     _ => panic!("unknown property {prop}"),
   }
@@ -87,6 +89,7 @@ fn run_worker(prop: &str, tier: &str, k: usize, n: usize, ctx: &mut Ctx) {
     "C13" => props::c13_worker(tier, k, n, ctx),
     "C06" => props::c06_worker(tier, k, n, ctx),
     "C08" => c08::worker(tier, k, n, ctx),
+    "C09" => c09::worker(tier, k, n, ctx),
     _ => panic!("unknown property {prop}"),
   }
 }
@@ -97,6 +100,7 @@ fn bounds(prop: &str, tier: &str) -> Value {
     "C13" => props::c13_bounds(tier),
     "C06" => props::c06_bounds(tier),
     "C08" => c08::bounds(tier),
+    "C09" => c09::bounds(tier),
     _ => json!({}),
   }
 }
@@ -169,6 +173,10 @@ fn replay(prop: &str, case: &Value, ctx: &mut Ctx) {
       if let term::Term::Sms(s) = &t {
         c08::c08_case(ctx, &s.value, &s.map);
       }
+    }
+    "C09" => {
+      let t: term::Term = serde_json::from_value(case.clone()).expect("case is a term");
+      c09::c09_case(ctx, &t);
     }
     "C13" => {
       let base: term::Term = serde_json::from_value(case["base"].clone()).expect("base");
